@@ -1287,6 +1287,49 @@ namespace sim
                 return;
               }
           }
+        // the quads of every shell tile the sphere exactly once: their solid angles add up to 4 pi, and the outer
+        // face of a cell is the radial projection of its inner face
+        auto unit = [&](long node, double u[3])
+        {
+          const double x = v.points.v[static_cast<size_t>(3 * node)], y = v.points.v[static_cast<size_t>(3 * node + 1)], z = v.points.v[static_cast<size_t>(3 * node + 2)];
+          const double r = std::sqrt(x * x + y * y + z * z);
+          u[0] = x / r;
+          u[1] = y / r;
+          u[2] = z / r;
+        };
+        auto tri_angle = [](const double a[3], const double b[3], const double c[3]) -> double
+        {
+          const double det = a[0] * (b[1] * c[2] - b[2] * c[1]) - a[1] * (b[0] * c[2] - b[2] * c[0]) + a[2] * (b[0] * c[1] - b[1] * c[0]);
+          const double ab = a[0] * b[0] + a[1] * b[1] + a[2] * b[2], bc = b[0] * c[0] + b[1] * c[1] + b[2] * c[2], ca = c[0] * a[0] + c[1] * a[1] + c[2] * a[2];
+          return 2.0 * std::atan2(std::fabs(det), 1.0 + ab + bc + ca);
+        };
+        std::vector<double> solid(static_cast<size_t>(g.nz), 0.0);
+        for (long cidx = 0; cidx < v.ncells; ++cidx)
+          {
+            const long k = cidx / (12 * g.nx * g.nx);
+            double u[8][3];
+            for (long c = 0; c < 8; ++c)
+              unit(static_cast<long>(v.connectivity.v[static_cast<size_t>(cidx * 8 + c)]), u[c]);
+            solid[static_cast<size_t>(k)] += tri_angle(u[0], u[1], u[2]) + tri_angle(u[0], u[2], u[3]);
+            for (long c = 0; c < 4; ++c)
+              {
+                const double d = std::fabs(u[c][0] - u[c + 4][0]) + std::fabs(u[c][1] - u[c + 4][1]) + std::fabs(u[c][2] - u[c + 4][2]);
+                if (d > (v.exact ? 1e-9 : 1e-4))
+                  {
+                    add(res, P + "/mesh", "cell", base + ".vtu cell " + std::to_string(cidx) + ": the outer face is not the radial projection of the inner face", op_index);
+                    return;
+                  }
+              }
+          }
+        for (long k = 0; k < g.nz; ++k)
+          if (std::fabs(solid[static_cast<size_t>(k)] - 4.0 * M_PI) > (v.exact ? 1e-6 : 1e-3))
+            {
+              std::ostringstream o;
+              o.precision(12);
+              o << base << ".vtu: the cells of layer " << k << " cover a solid angle of " << solid[static_cast<size_t>(k)] << ", a full sphere is " << 4.0 * M_PI;
+              add(res, P + "/mesh", "sphere-cover", o.str(), op_index);
+              return;
+            }
         for (long cidx = 0; cidx < v.ncells; ++cidx)
           {
             const long k = cidx / (12 * g.nx * g.nx);
